@@ -734,6 +734,10 @@ func planC17(t *testing.T, tier string, seed uint64) ([]RunSpec, error) {
 		if k%4 == 3 {
 			ps["fatal"] = 1
 			wl = "c17/free-race-fatal"
+		} else if k%4 == 2 {
+			ps["free_shape"] = []int{0, 1, 2, 4, 5, 9, 11, 12}[(k/4)%8]
+			ps["main_late"] = (k / 32) % 3
+			wl = fmt.Sprintf("c17/free-race-shape%d", ps["free_shape"])
 		} else if k%4 == 1 {
 			ps["shared"] = 1 + (k/4)%3
 			wl = "c17/free-race-shared-" + []string{"", "list", "object", "readers"}[ps["shared"]]
